@@ -102,3 +102,17 @@ Theorem C05_packed_agrees_offsets :
          packed_agrees gi t.
 Proof. exact PipelineConds.packed_agrees_from_offsets. Qed.
 Print Assumptions C05_packed_agrees_offsets.
+
+From YG Require Import LRBase CompleteDriver LR0Build Resolve PackCore Pipeline PipelineRun Front WfGrammar YParser EndToEnd EndToEndWf.
+Close Scope Z_scope.
+Open Scope nat_scope.
+
+(* from the bytes of the grammar file: the packed lookup of every (state, symbol) equals the cell of the matrix, under the one condition on the offset vector that is evaluated on the arrays of every run (the conditions on the matrix itself - no zero cell, error code in column 0 - are proved for every text) *)
+Theorem C05_from_the_text :
+  forall (s : list Ascii.ascii) (b : built) (t : tables),
+         generate_text s = GOk b t ->
+         (forall q : nat,
+          q < length (t_aut t) -> (0 <= nth q (p_off (t_packed t)) 0 + Z.of_nat (S (gi_nterm (b_gi b))))%Z) ->
+         packed_agrees (b_gi b) t.
+Proof. exact EndToEndWf.text_packed_agrees. Qed.
+Print Assumptions C05_from_the_text.
